@@ -2310,6 +2310,39 @@ Proof.
   - right. split; [exact Ef|]. unfold fsk. rewrite Ef. apply inv_good. apply inv_run. exact I.
 Qed.
 
+(* ---------- a history of calls IS a history of primitives ---------- *)
+(* so every theorem about histories of primitives with crashes (C10_completed_*_survives_crashes,
+   C10_nothing_invented, ...) speaks about histories of API calls *)
+Lemma run_is_runc os : forall s, run H shuffle false false true os s = runc H shuffle false false true (map Done os) s.
+Proof. induction os as [|o os IH]; intro s; [reflexivity|]. cbn [run runc map fold_left]. apply IH. Qed.
+
+Lemma runc_app h1 h2 s :
+  runc H shuffle false false true (h1 ++ h2) s = runc H shuffle false false true h2 (runc H shuffle false false true h1 s).
+Proof. unfold runc. apply fold_left_app. Qed.
+
+Lemma crash_ops_is_runc os : forall s k,
+  exists hs, crops s os k = runc H shuffle false false true hs s /\
+             (forall x, In x hs -> In (hop_op x) os \/ x = Crashed SaveIndex 0).
+Proof.
+  induction os as [|o os IH]; intros s k; cbn [crash_ops].
+  - exists [Crashed SaveIndex 0]. split; [reflexivity|]. intros x [<-|[]]. now right.
+  - destruct (Nat.leb k (length (steps s o))).
+    + exists [Crashed o k]. split; [reflexivity|]. intros x [<-|[]]. left. now left.
+    + destruct (IH (runop s o) (k - length (steps s o))%nat) as (hs & E & Hh).
+      exists (Done o :: hs). split; [cbn [runc fold_left run_hop]; exact E|].
+      intros x [<-|Hin]; [left; now left|]. destruct (Hh x Hin) as [Hx|Hx]; [left; now right|now right].
+Qed.
+
+Theorem runa_is_runc h : forall s, exists hs, runA h s = runc H shuffle false false true hs s.
+Proof.
+  induction h as [|x h IH]; intro s; [now exists []|].
+  cbn [runa fold_left]. destruct (IH (runcall s x)) as (hs2 & E2).
+  destruct x as [a|a k]; cbn [run_acall] in *.
+  - exists (map Done (expd s a) ++ hs2). rewrite runc_app, <- run_is_runc. exact E2.
+  - destruct (crash_ops_is_runc (expd s a) s k) as (hs1 & E1 & _).
+    exists (hs1 ++ hs2). rewrite runc_app, <- E1. exact E2.
+Qed.
+
 End Api.
 
 End Crash.
@@ -2563,4 +2596,26 @@ Theorem nothing_invented_src :
       (forall d, exists_file (sfs s) (FBlob d) = true -> pushed_in H d h) /\
       (forall l d r, read_index (sfs s) = Some l -> tag_of l r d -> tagged_in d r h).
 Proof. rewrite src_inplace_false, src_unlink_first_false. exact nothing_invented_disk. Qed.
+
+Theorem runa_is_runc_src :
+  forall (H : list N -> N) (shuffle : nat -> list entry -> list entry),
+    (forall c l e, In e (shuffle c l) <-> In e l) ->
+    forall (mt dec : N -> bool) (h : list acall),
+    exists hs, runa H shuffle src_inplace src_unlink_first true mt dec h init
+               = runc H shuffle src_inplace src_unlink_first true hs init.
+Proof.
+  rewrite src_inplace_false, src_unlink_first_false.
+  intros H shuffle _ mt dec h. exact (runa_is_runc H shuffle mt dec h init).
+Qed.
+
+(* audit F2 before the repairs: Push left the undecodable manifest behind and Tag accepted it
+   (the primitives [Push d c false; Tag d r] on a manifest-typed, undecodable d): the index
+   names content on which loadIndex fails *)
+Lemma reopen_refuted_undecodable :
+  exists (mt dec : N -> bool) (H : list N -> N) (os : list op),
+    load_okb mt dec (sfs (run H (fun _ l => l) false false true os init)) = false.
+Proof.
+  exists (fun d => d =? 7), (fun d => negb (d =? 7)), (fun _ => 7), [Push 7 [9] false; Tag 7 8].
+  vm_compute. reflexivity.
+Qed.
 
